@@ -3,4 +3,5 @@ From PV Require Import Lib.ExtBase C22.Model.
 Extraction "model.ml" ext_base_z ext_base_n ext_base_nat ext_base_res ext_base_list
   rc4 decryptKey encryptAES decryptAES encryptBytes decryptBytes encryptStream decryptStream
   is_sig encryptDeep decryptDeep write_iobj read_emitted
-  permissionBytes permsBlock validatePermissions p_written p_reported.
+  permissionBytes permsBlock validatePermissions p_written p_reported
+  pad32 encKey ownerKey compute_o compute_u validateUser validateOwner.
